@@ -76,12 +76,237 @@ theorem computeErrorScaled_neg {F p eb} (lay : Layout F p eb) (q : Int) (hi : Na
   rw [hinv, hb, hlit]
   split <;> omega
 
+/-! ## the fall-back answer as an estimate -/
+
+/-- what an invalid-marked answer `fp` of `compute_float` knows about the exact value `num/den`: its mantissa is
+normalised, its un-biased exponent is small, and with `K`, `S` the exponent field and shift that rounding the un-biased estimate to the float format
+uses, `mant·2^K ≤ (num/den)·2^L·2^S < (mant + 4)·2^K` (see `Proof.LemireFallback.bracket_of_estimate`). -/
+def EstOK (F : FTy) (p : Nat) (fp : ExtendedFloat80) (num den : Nat) : Prop :=
+  2 ^ 63 ≤ fp.mant ∧ fp.mant < 2 ^ 64 ∧ -(4096 : Int) ≤ fp.exp - invalidFp ∧ fp.exp - invalidFp ≤ 4096 ∧
+  fp.mant * 2 ^ ((fp.exp - invalidFp) + 64 - p - 1).toNat * den ≤
+    num * 2 ^ L F.fmt * 2 ^ shiftOf p (fp.exp - invalidFp) ∧
+  num * 2 ^ L F.fmt * 2 ^ shiftOf p (fp.exp - invalidFp) <
+    (fp.mant + 4) * 2 ^ ((fp.exp - invalidFp) + 64 - p - 1).toNat * den
+
+theorem shift_rel (p : Nat) (hp : p ≤ 64) (P : Int) :
+    (shiftOf p P : Int) + (P - 1) = ((P + 64 - p - 1).toNat : Int) := by
+  unfold shiftOf
+  split <;> omega
+
+theorem pow_shift_le (A Bv a1 b1 a2 b2 : Nat) (h : A * 2 ^ a1 ≤ Bv * 2 ^ b1) (heq : a1 + b2 = a2 + b1) :
+    A * 2 ^ a2 ≤ Bv * 2 ^ b2 := by
+  apply Nat.le_of_mul_le_mul_right _ (Nat.two_pow_pos (a1 + b2))
+  calc A * 2 ^ a2 * 2 ^ (a1 + b2) = (A * 2 ^ a1) * 2 ^ (a2 + b2) := by rw [Nat.pow_add, Nat.pow_add]; ring
+    _ ≤ (Bv * 2 ^ b1) * 2 ^ (a2 + b2) := Nat.mul_le_mul_right _ h
+    _ = Bv * 2 ^ b2 * 2 ^ (a2 + b1) := by rw [Nat.pow_add, Nat.pow_add]; ring
+    _ = Bv * 2 ^ b2 * 2 ^ (a1 + b2) := by rw [heq]
+
+theorem pow_shift_lt (A Bv a1 b1 a2 b2 : Nat) (h : Bv * 2 ^ b1 < A * 2 ^ a1) (heq : a1 + b2 = a2 + b1) :
+    Bv * 2 ^ b2 < A * 2 ^ a2 := by
+  apply Nat.lt_of_mul_lt_mul_right (a := 2 ^ (a1 + b2))
+  calc Bv * 2 ^ b2 * 2 ^ (a1 + b2) = Bv * 2 ^ b2 * 2 ^ (a2 + b1) := by rw [heq]
+    _ = (Bv * 2 ^ b1) * 2 ^ (a2 + b2) := by rw [Nat.pow_add, Nat.pow_add]; ring
+    _ < (A * 2 ^ a1) * 2 ^ (a2 + b2) := Nat.mul_lt_mul_of_pos_right h (Nat.two_pow_pos _)
+    _ = A * 2 ^ a2 * 2 ^ (a1 + b2) := by rw [Nat.pow_add, Nat.pow_add]; ring
+
+/-- with an all-ones low word the exact value lies in `[hi, hi + 2)` units of the upper word -/
+theorem fallback_bounds (wn hi5 lo5 lo hi N Dn : Nat)
+    (hwn1 : 2 ^ 63 ≤ wn) (hwn2 : wn < 2 ^ 64) (hhi5n : 2 ^ 63 ≤ hi5) (hhi : hi < 2 ^ 64)
+    (hzlow : (hi * 2 ^ 64 + lo) * 2 ^ 64 ≤ wn * (hi5 * 2 ^ 64 + lo5))
+    (hzup : wn * (hi5 * 2 ^ 64 + lo5) < (hi * 2 ^ 64 + lo + 1) * 2 ^ 64 ∨
+      (hi * 2 ^ 64 + lo = wn * hi5 ∧
+        wn * (hi5 * 2 ^ 64 + lo5) < (hi * 2 ^ 64 + lo + 2 ^ 64) * 2 ^ 64))
+    (hDn : 0 < Dn) (hNlo : wn * (hi5 * 2 ^ 64 + lo5) * Dn ≤ N)
+    (hNhi : N < (wn * (hi5 * 2 ^ 64 + lo5) + wn) * Dn) (hall : lo + 1 = 2 ^ 64) :
+    2 ^ 62 ≤ hi ∧ hi * (2 ^ 64 * (2 ^ 64 * Dn)) ≤ N ∧ N < (hi + 2) * (2 ^ 64 * (2 ^ 64 * Dn)) := by
+  have hX190 : 2 ^ 126 * 2 ^ 64 ≤ wn * (hi5 * 2 ^ 64 + lo5) := by
+    have hT : 2 ^ 63 * 2 ^ 64 ≤ hi5 * 2 ^ 64 + lo5 :=
+      Nat.le_trans (Nat.mul_le_mul_right (2 ^ 64) hhi5n) (Nat.le_add_right _ _)
+    calc 2 ^ 126 * 2 ^ 64 = 2 ^ 63 * (2 ^ 63 * 2 ^ 64) := by
+          rw [← Nat.pow_add, ← Nat.pow_add, ← Nat.pow_add]
+      _ ≤ wn * (hi5 * 2 ^ 64 + lo5) := Nat.mul_le_mul hwn1 hT
+  have hF126 : 2 ^ 126 ≤ wn * hi5 := by
+    calc 2 ^ 126 = 2 ^ 63 * 2 ^ 63 := by rw [← Nat.pow_add]
+      _ ≤ wn * hi5 := Nat.mul_le_mul hwn1 hhi5n
+  generalize hXv : wn * (hi5 * 2 ^ 64 + lo5) = X at *
+  have hz126 : 2 ^ 126 ≤ hi * 2 ^ 64 + lo := by
+    rcases hzup with h | ⟨h, _⟩
+    · have h1 := Nat.lt_of_le_of_lt hX190 h
+      have h2 := Nat.lt_of_mul_lt_mul_right h1
+      omega
+    · rw [h]; exact hF126
+  have hhi62 : 2 ^ 62 ≤ hi := by
+    have e : (2 : Nat) ^ 126 = 2 ^ 62 * 2 ^ 64 := by rw [← Nat.pow_add]
+    apply Classical.byContradiction; intro hcon
+    have h1 : hi + 1 ≤ 2 ^ 62 := by omega
+    have h2 := Nat.mul_le_mul_right (2 ^ 64) h1
+    rw [Nat.add_mul, Nat.one_mul] at h2
+    omega
+  refine ⟨hhi62, ?_, ?_⟩
+  · calc hi * (2 ^ 64 * (2 ^ 64 * Dn)) = (hi * 2 ^ 64 * 2 ^ 64) * Dn := by ring
+      _ ≤ ((hi * 2 ^ 64 + lo) * 2 ^ 64) * Dn :=
+        Nat.mul_le_mul_right _ (Nat.mul_le_mul_right _ (Nat.le_add_right _ _))
+      _ ≤ X * Dn := Nat.mul_le_mul_right _ hzlow
+      _ ≤ N := hNlo
+  · have hXw : X + wn ≤ (hi + 2) * 2 ^ 64 * 2 ^ 64 := by
+      generalize 2 ^ 64 = B at hzup hwn2 hall ⊢
+      rcases hzup with h | ⟨_, h⟩
+      · have e3 : hi * B + lo + 1 = hi * B + B := by omega
+        rw [e3] at h
+        have e4 : (hi + 2) * B * B = (hi * B + B) * B + B * B := by ring
+        have e5 : B ≤ B * B := Nat.le_mul_of_pos_left _ (by omega)
+        rw [e4]
+        generalize (hi * B + B) * B = Y at h ⊢
+        generalize B * B = BB at e5 ⊢
+        omega
+      · have e0 : hi * B + lo + B + 1 = hi * B + 2 * B := by omega
+        have e3 : (hi + 2) * B * B = (hi * B + lo + B) * B + B := by
+          calc (hi + 2) * B * B = (hi * B + 2 * B) * B := by ring
+            _ = (hi * B + lo + B + 1) * B := by rw [e0]
+            _ = (hi * B + lo + B) * B + B := by ring
+        rw [e3]
+        generalize (hi * B + lo + B) * B = Y at h ⊢
+        omega
+    calc N < (X + wn) * Dn := hNhi
+      _ ≤ ((hi + 2) * 2 ^ 64 * 2 ^ 64) * Dn := Nat.mul_le_mul_right _ hXw
+      _ = (hi + 2) * (2 ^ 64 * (2 ^ 64 * Dn)) := by ring
+
+/-- fields of `compute_error_scaled`: the upper word normalised, the binary exponent of the product, the marker -/
+theorem ces_fields (F : FTy) (q : Int) (hi lz : Nat) (hhi : hi < 2 ^ 64) (hhi62 : 2 ^ 62 ≤ hi) :
+    ∃ hilz : Nat, hilz ≤ 1 ∧ (computeErrorScaled F q hi lz).mant = hi * 2 ^ hilz ∧ 2 ^ 63 ≤ hi * 2 ^ hilz ∧
+      hi * 2 ^ hilz < 2 ^ 64 ∧
+      (computeErrorScaled F q hi lz).exp =
+        power (wrapI32 q) + F.C.exponentBias - hilz - lz - 62 + invalidFp := by
+  unfold computeErrorScaled shr shl64
+  simp only []
+  have hlit : litErrorBias = 62 := rfl
+  rw [hlit]
+  by_cases h63 : 2 ^ 63 ≤ hi
+  · have hd : hi / 2 ^ 63 = 1 := by
+      apply Nat.div_eq_of_lt_le <;> omega
+    refine ⟨0, by omega, ?_, by omega, by omega, ?_⟩
+    · rw [hd]; simp only [Nat.one_mod, if_true, Nat.pow_zero, Nat.mul_one]
+      exact Nat.mod_eq_of_lt hhi
+    · rw [hd]; simp
+  · have hd : hi / 2 ^ 63 = 0 := Nat.div_eq_of_lt (by omega)
+    refine ⟨1, by omega, ?_, by omega, by omega, ?_⟩
+    · rw [hd]; simp only [Nat.zero_mod, Nat.zero_ne_one, if_false]
+      exact Nat.mod_eq_of_lt (by omega)
+    · rw [hd]; simp
+
+theorem fb_eq_pos (q b lz hilz K S p Lf : Nat) (Cb P : Int) (hL : (Lf : Int) = Cb - 1) (hb65 : 65 ≤ b)
+    (hP : P = 62 + (q : Int) + (b : Int) + Cb - hilz - lz - 62) (hrel : (S : Int) + (P - 1) = K) :
+    (128 + (b - 128)) + (q + Lf + S) = (hilz + K) + (lz + (128 - b)) := by omega
+
+theorem fb_eq_neg (e b lz hilz K S p Lf : Nat) (Cb P : Int) (hL : (Lf : Int) = Cb - 1)
+    (hP : P = (63 : Int) - e - b + Cb - hilz - lz - 62) (hrel : (S : Int) + (P - 1) = K) :
+    128 + (Lf + S) = (hilz + K + e) + (lz + (b + 127)) := by omega
+
+/-- the fall-back answer on a row `q ≥ 28` is an estimate of `w·10^q` -/
+theorem estOK_pos {F p eb} (lay : Layout F p eb) (q b lz hi w : Nat) (hb65 : 65 ≤ b) (hb716 : b ≤ 716)
+    (hq308 : q ≤ 308) (hlz : lz ≤ 63) (hhi : hi < 2 ^ 64) (hhi62 : 2 ^ 62 ≤ hi) (hpow : power (wrapI32 (q : Int)) = 62 + (q : Int) + (b : Int))
+    (hlow : hi * (2 ^ 64 * (2 ^ 64 * 2 ^ (b - 128))) ≤ w * 2 ^ lz * 5 ^ q * 2 ^ (128 - b))
+    (hupp : w * 2 ^ lz * 5 ^ q * 2 ^ (128 - b) < (hi + 2) * (2 ^ 64 * (2 ^ 64 * 2 ^ (b - 128)))) :
+    EstOK F p (computeErrorScaled F (q : Int) hi lz) (w * 10 ^ q) 1 := by
+  obtain ⟨hilz, hh1, hm, hm1, hm2, he⟩ := ces_fields F (q : Int) hi lz hhi hhi62
+  have hLeq : (L F.fmt : Int) = F.C.exponentBias - 1 := by
+    rw [L_eq lay, lay.bias]; have := lay.hL127; omega
+  have hbias := lay.bias
+  have hb1024 := lay.hb1024
+  have hp64 := lay.hp64
+  unfold EstOK
+  rw [hm, he]
+  refine ⟨hm1, hm2, by rw [hpow, hbias]; omega, by rw [hpow, hbias]; omega, ?_, ?_⟩
+  all_goals
+    rw [show power (wrapI32 (q : Int)) + F.C.exponentBias - (hilz : Int) - (lz : Int) - 62 + invalidFp - invalidFp =
+      power (wrapI32 (q : Int)) + F.C.exponentBias - (hilz : Int) - (lz : Int) - 62 by omega]
+    generalize hP : power (wrapI32 (q : Int)) + F.C.exponentBias - (hilz : Int) - (lz : Int) - 62 = P
+    have hrel := shift_rel p (by have := lay.hp64; omega) P
+    generalize hK : (P + 64 - p - 1).toNat = K at *
+    generalize hS : shiftOf p P = S at *
+    have heq := fb_eq_pos q b lz hilz K S p (L F.fmt) F.C.exponentBias P hLeq hb65 (by rw [← hP, hpow]) hrel
+    have h10 : (10 : Nat) ^ q = 5 ^ q * 2 ^ q := by rw [← Nat.mul_pow]
+  · have h1 : hi * 2 ^ (128 + (b - 128)) ≤ (w * 5 ^ q) * 2 ^ (lz + (128 - b)) := by
+      calc hi * 2 ^ (128 + (b - 128)) = hi * (2 ^ 64 * (2 ^ 64 * 2 ^ (b - 128))) := by
+            rw [Nat.pow_add, show (2 : Nat) ^ 128 = 2 ^ 64 * 2 ^ 64 by rw [← Nat.pow_add]]; ring
+        _ ≤ w * 2 ^ lz * 5 ^ q * 2 ^ (128 - b) := hlow
+        _ = (w * 5 ^ q) * 2 ^ (lz + (128 - b)) := by rw [Nat.pow_add]; ring
+    have h2 := pow_shift_le hi (w * 5 ^ q) _ _ (hilz + K) (q + L F.fmt + S) h1 heq
+    calc hi * 2 ^ hilz * 2 ^ K * 1 = hi * 2 ^ (hilz + K) := by rw [Nat.pow_add]; ring
+      _ ≤ (w * 5 ^ q) * 2 ^ (q + L F.fmt + S) := h2
+      _ = w * 10 ^ q * 2 ^ L F.fmt * 2 ^ S := by rw [h10, Nat.pow_add, Nat.pow_add]; ring
+  · have h1 : (w * 5 ^ q) * 2 ^ (lz + (128 - b)) < (hi + 2) * 2 ^ (128 + (b - 128)) := by
+      calc (w * 5 ^ q) * 2 ^ (lz + (128 - b)) = w * 2 ^ lz * 5 ^ q * 2 ^ (128 - b) := by rw [Nat.pow_add]; ring
+        _ < (hi + 2) * (2 ^ 64 * (2 ^ 64 * 2 ^ (b - 128))) := hupp
+        _ = (hi + 2) * 2 ^ (128 + (b - 128)) := by
+            rw [Nat.pow_add, show (2 : Nat) ^ 128 = 2 ^ 64 * 2 ^ 64 by rw [← Nat.pow_add]]; ring
+    have h2 := pow_shift_lt (hi + 2) (w * 5 ^ q) _ _ (hilz + K) (q + L F.fmt + S) h1 heq
+    have h4 : 2 * 2 ^ hilz ≤ 4 := by
+      rcases Nat.le_one_iff_eq_zero_or_eq_one.mp hh1 with h | h <;> rw [h] <;> decide
+    calc w * 10 ^ q * 2 ^ L F.fmt * 2 ^ S = (w * 5 ^ q) * 2 ^ (q + L F.fmt + S) := by
+          rw [h10, Nat.pow_add, Nat.pow_add]; ring
+      _ < (hi + 2) * 2 ^ (hilz + K) := h2
+      _ = (hi * 2 ^ hilz + 2 * 2 ^ hilz) * 2 ^ K := by rw [Nat.pow_add]; ring
+      _ ≤ (hi * 2 ^ hilz + 4) * 2 ^ K := Nat.mul_le_mul_right _ (by omega)
+      _ = (hi * 2 ^ hilz + 4) * 2 ^ K * 1 := by ring
+
+/-- the fall-back answer on a row `−e ≤ −28` is an estimate of `w / 10^e` -/
+theorem estOK_neg {F p eb} (lay : Layout F p eb) (e b lz hi w : Nat) (hb795 : b ≤ 795) (he342 : e ≤ 342)
+    (hlz : lz ≤ 63) (hhi : hi < 2 ^ 64) (hhi62 : 2 ^ 62 ≤ hi)
+    (hpow : power (wrapI32 (-(e : Int))) = 63 - (e : Int) - (b : Int))
+    (hlow : hi * (2 ^ 64 * (2 ^ 64 * 5 ^ e)) ≤ w * 2 ^ lz * 2 ^ (b + 127))
+    (hupp : w * 2 ^ lz * 2 ^ (b + 127) < (hi + 2) * (2 ^ 64 * (2 ^ 64 * 5 ^ e))) :
+    EstOK F p (computeErrorScaled F (-(e : Int)) hi lz) w (10 ^ e) := by
+  obtain ⟨hilz, hh1, hm, hm1, hm2, he⟩ := ces_fields F (-(e : Int)) hi lz hhi hhi62
+  have hLeq : (L F.fmt : Int) = F.C.exponentBias - 1 := by
+    rw [L_eq lay, lay.bias]; have := lay.hL127; omega
+  have hbias := lay.bias
+  have hb1024 := lay.hb1024
+  have hp64 := lay.hp64
+  unfold EstOK
+  rw [hm, he]
+  refine ⟨hm1, hm2, by rw [hpow, hbias]; omega, by rw [hpow, hbias]; omega, ?_, ?_⟩
+  all_goals
+    rw [show power (wrapI32 (-(e : Int))) + F.C.exponentBias - (hilz : Int) - (lz : Int) - 62 + invalidFp - invalidFp =
+      power (wrapI32 (-(e : Int))) + F.C.exponentBias - (hilz : Int) - (lz : Int) - 62 by omega]
+    generalize hP : power (wrapI32 (-(e : Int))) + F.C.exponentBias - (hilz : Int) - (lz : Int) - 62 = P
+    have hrel := shift_rel p (by have := lay.hp64; omega) P
+    generalize hK : (P + 64 - p - 1).toNat = K at *
+    generalize hS : shiftOf p P = S at *
+    have heq := fb_eq_neg e b lz hilz K S p (L F.fmt) F.C.exponentBias P hLeq (by rw [← hP, hpow]) hrel
+    have h10 : (10 : Nat) ^ e = 5 ^ e * 2 ^ e := by rw [← Nat.mul_pow]
+  · have h1 : (hi * 5 ^ e) * 2 ^ 128 ≤ w * 2 ^ (lz + (b + 127)) := by
+      calc (hi * 5 ^ e) * 2 ^ 128 = hi * (2 ^ 64 * (2 ^ 64 * 5 ^ e)) := by
+            rw [show (2 : Nat) ^ 128 = 2 ^ 64 * 2 ^ 64 by rw [← Nat.pow_add]]; ring
+        _ ≤ w * 2 ^ lz * 2 ^ (b + 127) := hlow
+        _ = w * 2 ^ (lz + (b + 127)) := by rw [Nat.pow_add 2 lz]; ring
+    have h2 := pow_shift_le (hi * 5 ^ e) w _ _ (hilz + K + e) (L F.fmt + S) h1 heq
+    calc hi * 2 ^ hilz * 2 ^ K * 10 ^ e = (hi * 5 ^ e) * 2 ^ (hilz + K + e) := by
+          rw [h10, Nat.pow_add, Nat.pow_add]; ring
+      _ ≤ w * 2 ^ (L F.fmt + S) := h2
+      _ = w * 2 ^ L F.fmt * 2 ^ S := by rw [Nat.pow_add]; ring
+  · have h1 : w * 2 ^ (lz + (b + 127)) < ((hi + 2) * 5 ^ e) * 2 ^ 128 := by
+      calc w * 2 ^ (lz + (b + 127)) = w * 2 ^ lz * 2 ^ (b + 127) := by rw [Nat.pow_add 2 lz]; ring
+        _ < (hi + 2) * (2 ^ 64 * (2 ^ 64 * 5 ^ e)) := hupp
+        _ = ((hi + 2) * 5 ^ e) * 2 ^ 128 := by
+            rw [show (2 : Nat) ^ 128 = 2 ^ 64 * 2 ^ 64 by rw [← Nat.pow_add]]; ring
+    have h2 := pow_shift_lt ((hi + 2) * 5 ^ e) w _ _ (hilz + K + e) (L F.fmt + S) h1 heq
+    have h4 : 2 * 2 ^ hilz ≤ 4 := by
+      rcases Nat.le_one_iff_eq_zero_or_eq_one.mp hh1 with h | h <;> rw [h] <;> decide
+    calc w * 2 ^ L F.fmt * 2 ^ S = w * 2 ^ (L F.fmt + S) := by rw [Nat.pow_add]; ring
+      _ < ((hi + 2) * 5 ^ e) * 2 ^ (hilz + K + e) := h2
+      _ = (hi * 2 ^ hilz + 2 * 2 ^ hilz) * 2 ^ K * (5 ^ e * 2 ^ e) := by rw [Nat.pow_add, Nat.pow_add]; ring
+      _ ≤ (hi * 2 ^ hilz + 4) * 2 ^ K * (5 ^ e * 2 ^ e) :=
+        Nat.mul_le_mul_right _ (Nat.mul_le_mul_right _ (by omega))
+      _ = (hi * 2 ^ hilz + 4) * 2 ^ K * 10 ^ e := by rw [h10]
+
 /-- **`compute_float` on the truncated rows** `28 ≤ q ≤ 308`: it answers, and a valid answer is `roundNE (w·10^q)`.
 (When the low word is all ones on a truncated row the code falls back: the answer is invalid-marked.) -/
 theorem computeFloat_trunc_pos {F p eb sm lg rlo rhi} (LL : LemLayout F p eb sm lg rlo rhi) (hrhi : rhi < 28)
     (q : Nat) (h28 : 28 ≤ q) (h308 : q ≤ 308) (hqlg : (q : Int) ≤ lg) (w : Nat) (hw0 : w ≠ 0) (hw : w < 2 ^ 64) :
     ∃ fp, computeFloat F (q : Int) w false = .ok fp ∧
-      (0 ≤ fp.exp → extendedToFloat F fp = roundNE F.fmt (w * 10 ^ q) 1) := by
+      (0 ≤ fp.exp → extendedToFloat F fp = roundNE F.fmt (w * 10 ^ q) 1) ∧
+      (fp.exp < 0 → EstOK F p fp (w * 10 ^ q) 1) := by
   have lay := LL.lay
   have hf := lay.wf
   have hp := lay.hp; have hp64 := lay.hp64; have heb := lay.heb
@@ -104,6 +329,17 @@ theorem computeFloat_trunc_pos {F p eb sm lg rlo rhi} (LL : LemLayout F p eb sm 
   generalize hlzv : clz64 w = lz at *
   generalize hb5 : bitlen (5 ^ q) = b at *
   have hAll : litAllOnes = 2 ^ 64 - 1 := by decide
+  have hwn0 : 0 < w * 2 ^ lz := by have := Nat.two_pow_pos 63; omega
+  have hNlo : w * 2 ^ lz * (hi5 * 2 ^ 64 + lo5) * 2 ^ (b - 128) ≤ w * 2 ^ lz * 5 ^ q * 2 ^ (128 - b) := by
+    calc w * 2 ^ lz * (hi5 * 2 ^ 64 + lo5) * 2 ^ (b - 128)
+        = w * 2 ^ lz * ((hi5 * 2 ^ 64 + lo5) * 2 ^ (b - 128)) := by ring
+      _ ≤ w * 2 ^ lz * (5 ^ q * 2 ^ (128 - b)) := Nat.mul_le_mul_left _ hTlo
+      _ = w * 2 ^ lz * 5 ^ q * 2 ^ (128 - b) := by ring
+  have hNhi : w * 2 ^ lz * 5 ^ q * 2 ^ (128 - b) <
+      (w * 2 ^ lz * (hi5 * 2 ^ 64 + lo5) + w * 2 ^ lz) * 2 ^ (b - 128) := by
+    calc w * 2 ^ lz * 5 ^ q * 2 ^ (128 - b) = w * 2 ^ lz * (5 ^ q * 2 ^ (128 - b)) := by ring
+      _ < w * 2 ^ lz * ((hi5 * 2 ^ 64 + lo5 + 1) * 2 ^ (b - 128)) := Nat.mul_lt_mul_of_pos_left hThi hwn0
+      _ = (w * 2 ^ lz * (hi5 * 2 ^ 64 + lo5) + w * 2 ^ lz) * 2 ^ (b - 128) := by ring
   by_cases hfb : lo = litAllOnes ∧ 55 < q
   · -- the fall-back: an invalid-marked answer
     have hc : (!false && lo == litAllOnes && !(decide (litSafeLo ≤ (q : Int)) && decide ((q : Int) ≤ litSafeHi))) = true := by
@@ -111,9 +347,16 @@ theorem computeFloat_trunc_pos {F p eb sm lg rlo rhi} (LL : LemLayout F p eb sm 
         unfold litSafeHi; simp only [decide_eq_false_iff_not]; omega
       rw [hfb.1, h2]; simp
     rw [if_pos hc]
-    refine ⟨_, rfl, fun hv => ?_⟩
-    have := computeErrorScaled_neg lay (q : Int) hi lz (by rw [hpow]; omega)
-    omega
+    refine ⟨_, rfl, fun hv => ?_, fun _ => ?_⟩
+    · have := computeErrorScaled_neg lay (q : Int) hi lz (by rw [hpow]; omega)
+      omega
+    · have hall : lo + 1 = 2 ^ 64 := by
+        rw [hfb.1, hAll]; exact Nat.sub_add_cancel (Nat.two_pow_pos 64)
+      have hmb : 64 - (F.ms + litPrecisionExtra) = 62 - p := by rw [hprec]; omega
+      obtain ⟨hhi62, hlow, hupp⟩ := fallback_bounds (w * 2 ^ lz) hi5 lo5 lo hi (w * 2 ^ lz * 5 ^ q * 2 ^ (128 - b))
+        (2 ^ (b - 128)) hwn1 hwn2 hhi5n hhi hzlow (hzup.imp id (fun h => ⟨h.2.1, h.2.2⟩)) (Nat.two_pow_pos _)
+        hNlo hNhi hall
+      exact estOK_pos lay q b lz hi w hb65 hb716 h308 hlz hhi hhi62 hpow hlow hupp
   · have hc : (!false && lo == litAllOnes && !(decide (litSafeLo ≤ (q : Int)) && decide ((q : Int) ≤ litSafeHi))) = false := by
       by_cases hl : lo = litAllOnes
       · have hq55 : q ≤ 55 := by
@@ -135,17 +378,6 @@ theorem computeFloat_trunc_pos {F p eb sm lg rlo rhi} (LL : LemLayout F p eb sm 
       have hV : 5 ^ q * 2 ^ (128 - b) = hi5 * 2 ^ 64 + lo5 :=
         Nat.le_antisymm (Nat.lt_succ_iff.mp hThi) hTlo
       rw [Nat.mul_assoc, hV]
-    have hwn0 : 0 < w * 2 ^ lz := by have := Nat.two_pow_pos 63; omega
-    have hNlo : w * 2 ^ lz * (hi5 * 2 ^ 64 + lo5) * 2 ^ (b - 128) ≤ w * 2 ^ lz * 5 ^ q * 2 ^ (128 - b) := by
-      calc w * 2 ^ lz * (hi5 * 2 ^ 64 + lo5) * 2 ^ (b - 128)
-          = w * 2 ^ lz * ((hi5 * 2 ^ 64 + lo5) * 2 ^ (b - 128)) := by ring
-        _ ≤ w * 2 ^ lz * (5 ^ q * 2 ^ (128 - b)) := Nat.mul_le_mul_left _ hTlo
-        _ = w * 2 ^ lz * 5 ^ q * 2 ^ (128 - b) := by ring
-    have hNhi : w * 2 ^ lz * 5 ^ q * 2 ^ (128 - b) <
-        (w * 2 ^ lz * (hi5 * 2 ^ 64 + lo5) + w * 2 ^ lz) * 2 ^ (b - 128) := by
-      calc w * 2 ^ lz * 5 ^ q * 2 ^ (128 - b) = w * 2 ^ lz * (5 ^ q * 2 ^ (128 - b)) := by ring
-        _ < w * 2 ^ lz * ((hi5 * 2 ^ 64 + lo5 + 1) * 2 ^ (b - 128)) := Nat.mul_lt_mul_of_pos_left hThi hwn0
-        _ = (w * 2 ^ lz * (hi5 * 2 ^ 64 + lo5) + w * 2 ^ lz) * 2 ^ (b - 128) := by ring
     have hX190 : 2 ^ 126 * 2 ^ 64 ≤ w * 2 ^ lz * (hi5 * 2 ^ 64 + lo5) := by
       have hT : 2 ^ 63 * 2 ^ 64 ≤ hi5 * 2 ^ 64 + lo5 :=
         Nat.le_trans (Nat.mul_le_mul_right (2 ^ 64) hhi5n) (Nat.le_add_right _ _)
@@ -251,7 +483,7 @@ theorem computeFloat_trunc_pos {F p eb sm lg rlo rhi} (LL : LemLayout F p eb sm 
     obtain ⟨fp, hfp1, hfp2, hfp3, hq0lo, hq0hi, hm0lo⟩ := cfRound_of_quot LL (q : Int) lo hi lz hhi hhi62 u sh hu hshv
       N (2 ^ sh * 2 ^ 64 * (2 ^ 64 * 2 ^ (b - 128))) (61 + q + b + u + (2 ^ (eb - 1) - 1) - lz)
       (Nat.mul_pos (Nat.mul_pos (Nat.two_pow_pos _) hB) (Nat.mul_pos hB hKpos)) hquot.symm htie hpw2
-    refine ⟨fp, hfp1, fun _ => ?_⟩
+    refine ⟨fp, hfp1, fun _ => ?_, fun h => absurd h (by omega)⟩
     rw [hfp3]
     symm
     have hL := L_eq lay
